@@ -76,6 +76,7 @@ def check_enum(case):
 
 
 def enum(tier):
+    yield {'w': 2, 's': 1, 'n': 66000}      # more items in one key than a 16-bit counter holds
     for w, s, n in ((256, 256, 600), (257, 257, 600), (300, 300, 700), (300, 100, 650), (257, 300, 700)):
         yield {'w': w, 's': s, 'n': n}       # sizes beyond CPython's small-int cache
     wm, nm = (12, 120) if tier == 'thorough' else (8, 40)
